@@ -129,8 +129,17 @@ func c04Check(t *fw.T, prog *gen.JSProg, st gen.JSStyle, op js.Options) bool {
 		}
 		w := want[i]
 		got := out[j]
-		if occ[i].Short && w.bind > 0 && got == w.name && j+1 < len(out) && isFresh(out[j+1]) {
-			// {a} printed as {a: v1_}
+		if occ[i].Short && w.bind > 0 {
+			// a shorthand {a} of a renamed binding must be printed as key and value, {a: v1_}: the property name stays
+			if !(got == w.name && j+1 < len(out) && isFresh(out[j+1])) {
+				t.Failf("identifier %d: the shorthand property or pattern element {%s} of a renamed binding is printed as %q (next token %q) instead of {%s: <new name>}: the property name changed", i, w.name, got, func() string {
+					if j+1 < len(out) {
+						return out[j+1]
+					}
+					return ""
+				}(), w.name)
+				return false
+			}
 			j++
 			got = out[j]
 		}
@@ -190,7 +199,7 @@ func c04Check(t *fw.T, prog *gen.JSProg, st gen.JSStyle, op js.Options) bool {
 	return true
 }
 
-var c04Opts = gen.JSOpts{NoRegex: true, PlainKeys: true, NoClassSelf: true, NoModuleItems: true, ParamDefaultRefs: true, CtxNames: true}
+var c04Opts = gen.JSOpts{NoRegex: true, PlainKeys: true, NoClassSelf: true, NoModuleItems: true, ParamDefaultRefs: true, CtxNames: true, Shorthand: true}
 
 func c04Run(t *fw.T) {
 	r := t.Rng
@@ -241,6 +250,7 @@ var c04Probes = []struct {
 	{"param-default-use-vs-body-var", "function f(a = x) { x = 1; var x }"},
 	{"arrow-flag-leak-into-arrow-expression-body", "({} != (() => [b] = 1)); b"},
 	{"arrow-flag-leak-into-class-body", "({} + class { [c] = d; static { e } }); c; d; e"},
+	{"shorthand-of-linked-variable", "var a; function f() { return {a} }"},
 	{"export-specifier-local-name", "var a; export { a }; a"},
 	{"function-declaration-in-block-hoists", "function o() { { function f() {} } return f }"},
 	{"arrow-bare-parameter-uses", "var a; a => a"},
@@ -287,6 +297,7 @@ func c04Probe(t *fw.T) {
 		"param-default-use-vs-body-var":              "function v1_(v2_ = x) { v3_ = 1; var v3_ }",
 		"arrow-flag-leak-into-arrow-expression-body": "({} != (() => { return [b] = 1 })); b",
 		"arrow-flag-leak-into-class-body":            "({} + class { [c] = d; static { e } }); c; d; e",
+		"shorthand-of-linked-variable":               "var v1_; function v2_() { return {a: v1_} }",
 		"export-specifier-local-name":                "var v1_; export { v1_ as a }; v1_",
 		"function-declaration-in-block-hoists":       "function v1_() { { function v2_() {} } return v2_ }",
 		"arrow-bare-parameter-uses":                  "var v1_; (v2_) => { return v2_ }",
